@@ -102,7 +102,7 @@ impl Prop for C14 {
         for p in ["left-end", "right-end", "interior-knot", "just-above-knot", "just-below-knot", "midpoint", "random"] {
             v.push(format!("point:{}", p));
         }
-        for s in ["repeated-interior-knot", "no-interior-knots", "m>=k", "m=k-1", "outside-support"] {
+        for s in ["repeated-interior-knot", "no-interior-knots", "m>=k", "m=k-1", "outside-support", "array-form"] {
             v.push(s.to_string());
         }
         v
@@ -111,7 +111,7 @@ impl Prop for C14 {
         tier.pick(1_000_000, 50_000_000)
     }
     fn rule(&self) -> String {
-        "Seeded knot vectors for every order k=1..6: k-fold end knots, 0..8 interior knots with multiplicities 1..k-1, spacings in [0.05,20] (integers, binary fractions, arbitrary decimals); ALL basis indices i; derivative orders m=0..k+1; evaluation points: every knot, both end points, the floats immediately above / below every knot, midpoints, 20 random points. bsplev_single_f64 and bspldnev_single_f64 against the piecewise-polynomial oracle (Cox-de Boor on coefficient vectors, polynomial differentiation, Horner) with a Horner-magnitude tolerance; non-negativity, exact zero outside the support, partition of unity to 1e-12, zero for m>=k. distinct_nontrivial = distinct (k, knot multiplicity pattern, spacing kind) x case.".into()
+        "Seeded knot vectors for every order k=1..6: k-fold end knots, 0..8 interior knots with multiplicities 1..k-1, spacings in [0.05,20] (integers, binary fractions, arbitrary decimals); ALL basis indices i; derivative orders m=0..k+1; evaluation points: every knot, both end points, the floats immediately above / below every knot, midpoints, 20 random points. bsplev_single_f64 and bspldnev_single_f64 against the piecewise-polynomial oracle (Cox-de Boor on coefficient vectors, polynomial differentiation, Horner) with a Horner-magnitude tolerance; the container form PPSpline::bspldnev over all points at once must return the same numbers as the single-point evaluators; non-negativity, exact zero outside the support, partition of unity to 1e-12, zero for m>=k. distinct_nontrivial = distinct (k, knot multiplicity pattern, spacing kind) x case.".into()
     }
     fn assumptions(&self) -> Vec<String> {
         vec!["derivatives are taken from the right, from the left at the right end point (as the statement says)".into(), "tolerance = 64 eps x Horner bound on absolute values of the local polynomial + 1e-14".into()]
@@ -185,6 +185,49 @@ impl Prop for C14 {
             if (sum0 - 1.0).abs() > 1e-12 {
                 ctx.violation(&format!("C14|partition-of-unity|{}|k={}", pcls, k), json!({"k": k, "t": t, "x": x, "sum": sum0}));
                 return;
+            }
+        }
+        // the container form PPSpline::bspldnev(xs, i, m) (what Python's bsplev / bspldnev call): the same
+        // numbers as the single-point evaluators, for every basis index, derivative order and point at once
+        {
+            let sp = rateslib::splines::PPSpline::<f64>::new(k, t.clone(), None);
+            let xs: Vec<f64> = pts.iter().map(|(x, _)| *x).collect();
+            for i in 0..n {
+                for m in 0..=k + 1 {
+                    let got = match guarded(|| sp.bspldnev(&xs, &i, &m)) {
+                        Caught::Ok(g) => g,
+                        Caught::Panic { loc, msg } => {
+                            if is_harness_location(&loc) {
+                                ctx.harness_error(format!("{} {}", loc, msg));
+                            } else {
+                                ctx.violation(&format!("C14|panic|array-form|{}", short_loc(&loc)), json!({"k": k, "t": t, "i": i, "m": m, "message": msg}));
+                            }
+                            return;
+                        }
+                    };
+                    ctx.eval(xs.len() as u64);
+                    ctx.asserted(xs.len() as u64);
+                    ctx.class("array-form");
+                    let mut bad = got.len() != xs.len();
+                    if !bad {
+                        for (j, x) in xs.iter().enumerate() {
+                            let single = if m == 0 { bsplev_single_f64(x, i, &k, &t, None) } else { bspldnev_single_f64(x, i, &k, &t, m, None) };
+                            if got[j].to_bits() != single.to_bits() && !(got[j] == single) {
+                                ctx.violation(
+                                    &format!("C14|array-form-differs|{}|{}", pts[j].1, if m == 0 { "value".to_string() } else { format!("derivative-{}", m.min(3)) }),
+                                    json!({"case": case(*x, i, m), "point_class": pts[j].1, "array_form": got[j], "single_point_form": single}),
+                                );
+                                return;
+                            }
+                        }
+                    } else {
+                        bad = true;
+                    }
+                    if bad {
+                        ctx.violation("C14|array-form-length", json!({"k": k, "t": t, "i": i, "m": m, "returned": got.len(), "points": xs.len()}));
+                        return;
+                    }
+                }
             }
         }
         // multiplicity pattern fingerprint
